@@ -1,6 +1,6 @@
 ------------------------------ MODULE MC_Objects ------------------------------
 (* C14 generator (spec -> impl).  Two families, as descriptors the driver turns into programs:
-   dispatch:  a parent chain of 0..3 objects ending in null / an integer / a boolean / an array,
+   dispatch:  a parent chain of 0..3 objects ending in null / an integer (5, 0) / a boolean (true, false) / an array (2 elements, empty),
               each level defining one of the member sets in Defs (method m, operator +, get,
               set; overriding included), and one call on the outermost object: m with the
               right and a wrong argument count, the operators + and &, == null, != 5 (and their Feeny spellings
@@ -13,7 +13,7 @@
 EXTENDS Integers, Sequences, TLC, Json, IOUtils
 VARIABLES d
 
-Ends == {"null", "int", "bool", "arr"}
+Ends == {"null", "int", "bool", "arr", "false", "zero", "arr0"}     \* the last three: the falsy / empty values of each kind (a parent is absent only when it is null)
 Defs == {"", "m", "+", "g", "s", "m+gs", "M", "G", "a", ">", "F", "mF"}     \* F: a FIELD named m (fields and methods are separate namespaces), mF: both a field m and a method m; M: m with two parameters, G: get without parameters (overriding with a different parameter count), a: a method named add (a Feeny spelling used as an ordinary name)
 Chains == UNION {[1..n -> Defs] : n \in 0..3}
 Calls == {"m1", "m0", "m2", "plus", "and", "index", "setindex", "get", "set", "zz", "field", "fieldm", "eqnull", "ne5", "feq", "fneq", "add1", "plus0", "plus2", "lt3", "gt1", "ge1"}
